@@ -8,7 +8,7 @@ use refimpl::wire::{self, DataBody, DemandActive, FpUpdate, Rect};
 use serde::{Deserialize, Serialize};
 
 pub const LEVEL: &str = "exploration";
-pub const RULE: &str = "case = history over the 11-letter alphabet of server messages {demand-active, synchronize, control-cooperate, control-granted, control-other, font-map, set-error-info, unknown data PDU, deactivate-all, fast-path bitmap, fast-path other}, one PDU per frame (plus, while the client is active, batches of several slow-path PDUs in one MCS frame: generated joins and the list of every 2- and 3-letter batch, each followed by a bitmap and a demand-active probe), on a fresh connected client; after every step an input attempt (write pointer, try_write key). server-profiles: the activation script (with noise letters) against 32 server variants (reported RDP version 4 / 5 / 5.1 / 10.x / unknown x assigned user id); many-cycles: 40, 70 and 300 complete activation cycles in one session; a third of the generated histories use a non-default server variant. exhaustive section enumerates every history up to length 5 (quick) / 6 (thorough); random section histories up to length 60. Oracle = reference automaton written from the property: Await(DemandActive) -demand-active-> emits exactly [confirm-active, synchronize, cooperate, request-control, font-list] with that share id -> Await(Sync) -> Await(Cooperate) -> Await(Granted) -> Await(FontMap) -> Active -deactivate-all-> Await(DemandActive); any other letter emits nothing and does not advance; write is Ok with exactly one input PDU iff Active, otherwise Err (try_write Ok) with zero bytes; bitmap callbacks iff Active. Where the property is silent (deactivate-all during the handshake) both 'stay' and 'restart' are allowed. Non-trivial = history containing a complete activation or an input attempt refused after one; distinct by hash of the history.";
+pub const RULE: &str = "case = history over the 11-letter alphabet of server messages {demand-active, synchronize, control-cooperate, control-granted, control-other, font-map, set-error-info, unknown data PDU, deactivate-all, fast-path bitmap, fast-path other}, one PDU per frame (plus, while the client is active, batches of several slow-path PDUs in one MCS frame: generated joins and the list of every 2- and 3-letter batch, each followed by a bitmap and a demand-active probe), on a fresh connected client; after every step an input attempt (write pointer, try_write key). gate-every-key-code: in each of the six non-active states all 65536 scancodes (press and release) and 4096 pointer events are offered through write and try_write: all refused, no byte written; the input probe after every step of every history uses one of 16 key codes (ordinary, E0 / E1 extended, print screen, boundaries); generated histories contain deactivate-alls that name the share id of an earlier activation (they close the window like any other). server-profiles: the activation script (with noise letters) against 32 server variants (reported RDP version 4 / 5 / 5.1 / 10.x / unknown x assigned user id); many-cycles: 40, 70 and 300 complete activation cycles in one session; a third of the generated histories use a non-default server variant. exhaustive section enumerates every history up to length 5 (quick) / 6 (thorough); random section histories up to length 60. Oracle = reference automaton written from the property: Await(DemandActive) -demand-active-> emits exactly [confirm-active, synchronize, cooperate, request-control, font-list] with that share id -> Await(Sync) -> Await(Cooperate) -> Await(Granted) -> Await(FontMap) -> Active -deactivate-all-> Await(DemandActive); any other letter emits nothing and does not advance; write is Ok with exactly one input PDU iff Active, otherwise Err (try_write Ok) with zero bytes; bitmap callbacks iff Active. Where the property is silent (deactivate-all during the handshake) both 'stay' and 'restart' are allowed. Non-trivial = history containing a complete activation or an input attempt refused after one; distinct by hash of the history.";
 
 #[derive(Serialize, Deserialize, Hash, Clone, Copy, Debug, PartialEq, Eq)]
 pub enum Letter {
@@ -23,7 +23,12 @@ pub enum Letter {
     DeactivateAll,
     FpBitmap,
     FpOther,
+    /// a deactivate-all that names the share id of an EARLIER activation (not part of the exhaustive alphabet)
+    DeactivateAllOldShare,
 }
+
+/// key codes used by the input probe after every step: ordinary, extended (E0 / E1 prefixes), print screen, pause, boundary values
+pub const PROBE_CODES: [u16; 16] = [30, 0x1D, 0x38, 0x53, 0xE037, 0xE02A, 0xE11D, 0x45, 0x5B, 0xE05B, 0, 1, 0xFF, 0x100, 0x7FFF, 0xFFFF];
 
 pub const ALPHABET: [Letter; 11] = [Letter::DemandActive, Letter::Synchronize, Letter::Cooperate, Letter::Granted, Letter::ControlOther, Letter::FontMap, Letter::SetErrorInfo, Letter::UnknownData, Letter::DeactivateAll, Letter::FpBitmap, Letter::FpOther];
 
@@ -55,7 +60,7 @@ pub fn profile_of(variant: u8) -> ServerProfile {
 }
 
 fn batchable(l: Letter) -> bool {
-    !matches!(l, Letter::DemandActive | Letter::FpBitmap | Letter::FpOther)
+    !matches!(l, Letter::DemandActive | Letter::FpBitmap | Letter::FpOther | Letter::DeactivateAllOldShare)
 }
 
 #[derive(Clone, Copy, PartialEq, Eq, Debug)]
@@ -76,8 +81,8 @@ fn step(st: St, l: Letter) -> (Vec<St>, bool) {
         (St::Coop, Letter::Cooperate) => (vec![St::Granted], false),
         (St::Granted, Letter::Granted) => (vec![St::FontMap], false),
         (St::FontMap, Letter::FontMap) => (vec![St::Active], false),
-        (St::Active, Letter::DeactivateAll) => (vec![St::Demand], false),
-        (St::Sync, Letter::DeactivateAll) | (St::Coop, Letter::DeactivateAll) | (St::Granted, Letter::DeactivateAll) | (St::FontMap, Letter::DeactivateAll) => (vec![st, St::Demand], false),
+        (St::Active, Letter::DeactivateAll) | (St::Active, Letter::DeactivateAllOldShare) => (vec![St::Demand], false),
+        (St::Sync, Letter::DeactivateAll | Letter::DeactivateAllOldShare) | (St::Coop, Letter::DeactivateAll | Letter::DeactivateAllOldShare) | (St::Granted, Letter::DeactivateAll | Letter::DeactivateAllOldShare) | (St::FontMap, Letter::DeactivateAll | Letter::DeactivateAllOldShare) => (vec![st, St::Demand], false),
         _ => (vec![st], false),
     }
 }
@@ -103,6 +108,7 @@ pub fn run(c: &Case) -> Outcome {
     let mut share_counter: u32 = 0x0100_0000;
     let mut current_share: u32 = 0;
     let mut prev_share: Option<u32> = None;
+    let mut old_shares: Vec<u32> = Vec::new();
     let mut seen_events = h.borrow().server.events.len();
     let mut completed_activation = false;
     let mut refused_after_activation = false;
@@ -161,6 +167,7 @@ pub fn run(c: &Case) -> Outcome {
                 Letter::SetErrorInfo => s.server.wrap(&wire::set_error_info(current_share, su, 0)),
                 Letter::UnknownData => s.server.wrap(&wire::other_data_pdu(current_share, su, 0x26, &[0, 0, 0, 0])),
                 Letter::DeactivateAll => s.server.wrap(&wire::deactivate_all(current_share, su)),
+                Letter::DeactivateAllOldShare => s.server.wrap(&wire::deactivate_all(old_shares.first().copied().unwrap_or(current_share ^ 0x0101), su)),
                 Letter::FpBitmap => wire::fast_path_pdu(&[FpUpdate::Bitmap(vec![Rect { left: 0, top: 0, right: 0, bottom: 0, width: 1, height: 1, bpp: 32, flags: 0, cd_scan_width: 0, cd_uncompressed: 0, data: vec![1, 2, 3, 4] }])], 0, false),
                 Letter::FpOther => wire::fast_path_pdu(&[FpUpdate::PointerNull, FpUpdate::Synchronize], 0, false),
             }
@@ -199,6 +206,9 @@ pub fn run(c: &Case) -> Outcome {
         let finalization = vec!["confirm-active".to_string(), "synchronize".into(), "control(4)".into(), "control(1)".into(), "font-list".into()];
         if *l == Letter::DemandActive {
             if emitted == finalization {
+                if current_share != 0 {
+                    old_shares.push(current_share);
+                }
                 current_share = share_counter;
             } else {
                 // not answered: the previous share id stays the valid one
@@ -252,7 +262,8 @@ pub fn run(c: &Case) -> Outcome {
         let before = h.borrow().transcript.len();
         let (r1, _) = call(|| conn.client.write(RdpEvent::Pointer(PointerEvent { x: 3, y: 4, button: PointerButton::Left, down: true })));
         let mid = h.borrow().transcript.len();
-        let (r2, _) = call(|| conn.client.try_write(RdpEvent::Key(KeyboardEvent { code: 30, down: true })));
+        let probe_code: u16 = PROBE_CODES[(i * 7 + c.history.len()) % PROBE_CODES.len()];
+        let (r2, _) = call(|| conn.client.try_write(RdpEvent::Key(KeyboardEvent { code: probe_code, down: i % 2 == 0 })));
         let after = h.borrow().transcript.len();
         if let Res::Panic(p) = &r1 {
             fail_panic(&mut out, "RdpClient::write", p);
@@ -318,6 +329,99 @@ pub fn run(c: &Case) -> Outcome {
     out
 }
 
+/// outside the input window EVERY key code and EVERY pointer position is refused: the client is driven into a non-active
+/// state and offered all 65536 scancodes (press and release) and a sweep of pointer events
+#[derive(Serialize, Deserialize, Hash, Clone, Debug)]
+pub struct GateCase {
+    /// 0..=4 = the handshake states before the font-map; 5 = after a complete activation and a deactivate-all
+    pub state: u8,
+    pub lenient: bool,
+}
+
+pub fn run_gate(c: &GateCase) -> Outcome {
+    let mut out = Outcome::new();
+    out.nontrivial(true);
+    let mut profile = ServerProfile::simple(1004, 0x000103EA);
+    profile.auto = false;
+    let (duplex, h) = mem::new_duplex(profile, None);
+    let (r, step_name) = mem::mem_connect(&ClientCfg::simple(), duplex, 1);
+    let mut conn = match r {
+        Res::Ok(c) => c,
+        _ => {
+            out.fail("panic:HARNESS-FAULT c12 session setup", format!("{} failed", step_name));
+            return out;
+        }
+    };
+    let su = 1002u16;
+    let share = 0x0042_0001u32;
+    let d = DemandActive { share_id: share, source: b"RDP\0".to_vec(), caps: wire::sample_server_caps(), session_id: 0 };
+    let mut frames = Vec::new();
+    {
+        let mut s = h.borrow_mut();
+        frames.push(s.server.pdu_demand_active(&d));
+        frames.push(s.server.wrap(&wire::synchronize(share, su, 1004)));
+        frames.push(s.server.wrap(&wire::control(share, su, 4, 0, 0)));
+        frames.push(s.server.wrap(&wire::control(share, su, 2, 1004, 0x03EA)));
+        frames.push(s.server.wrap(&wire::font_map(share, su)));
+        frames.push(s.server.wrap(&wire::deactivate_all(share, su)));
+    }
+    let n = if c.state >= 5 { 6 } else { c.state as usize };
+    for f in frames.iter().take(n) {
+        h.borrow_mut().push(&f.bytes);
+        let (r, _) = call(|| conn.client.read(|_| ()));
+        if !r.is_ok() {
+            out.fail("panic:HARNESS-FAULT c12 gate prefix", "conforming prefix rejected");
+            return out;
+        }
+    }
+    h.borrow_mut().pump();
+    let before = h.borrow().transcript.len();
+    for code in 0..=0xFFFFu32 {
+        for down in [true, false] {
+            let ev = RdpEvent::Key(KeyboardEvent { code: code as u16, down });
+            let (r, _) = call(|| if c.lenient { conn.client.try_write(ev) } else { conn.client.write(ev) });
+            match r {
+                Res::Panic(p) => {
+                    fail_panic(&mut out, "RdpClient::write", &p);
+                    return out;
+                }
+                Res::Ok(()) if !c.lenient => {
+                    out.fail("input-gate:accepted-outside-window", format!("write(Key {{ code: {:#06x}, down: {} }}) returned Ok in state {} (outside the input window)", code, down, c.state));
+                    return out;
+                }
+                _ => {}
+            }
+        }
+        if code % 4096 == 0 || code == 0xFFFF {
+            let now = h.borrow().transcript.len();
+            if now != before {
+                out.fail("input-gate:refused-but-wrote-bytes", format!("key events up to code {:#06x} offered in state {} put {} bytes on the wire", code, c.state, now - before));
+                return out;
+            }
+        }
+    }
+    for k in 0..4096u32 {
+        let ev = RdpEvent::Pointer(PointerEvent { x: (k * 16) as u16, y: (k * 13 % 65536) as u16, button: [PointerButton::None, PointerButton::Left, PointerButton::Right, PointerButton::Middle][(k % 4) as usize], down: k % 3 == 0 });
+        let (r, _) = call(|| if c.lenient { conn.client.try_write(ev) } else { conn.client.write(ev) });
+        match r {
+            Res::Panic(p) => {
+                fail_panic(&mut out, "RdpClient::write", &p);
+                return out;
+            }
+            Res::Ok(()) if !c.lenient => {
+                out.fail("input-gate:accepted-outside-window", format!("write(pointer #{}) returned Ok in state {}", k, c.state));
+                return out;
+            }
+            _ => {}
+        }
+    }
+    let now = h.borrow().transcript.len();
+    if now != before {
+        out.fail("input-gate:refused-but-wrote-bytes", format!("events offered in state {} put {} bytes on the wire", c.state, now - before));
+    }
+    out
+}
+
 fn all_histories(maxlen: usize, part: usize, parts: usize) -> impl Iterator<Item = Case> {
     // histories as base-11 numbers of every length 1..=maxlen
     let mut total = 0usize;
@@ -353,7 +457,7 @@ pub fn decode(s: &mut Src) -> Case {
             history.push(script[pos % script.len()]);
             pos += 1;
         } else {
-            history.push(s.pick(&ALPHABET));
+            history.push(if s.chance(16) { Letter::DeactivateAllOldShare } else { s.pick(&ALPHABET) });
         }
     }
     Case { history, joins, variant }
@@ -397,6 +501,13 @@ pub fn check(rep: &Report) {
         }
     }
     rep.list("batched-frames", b, run);
+    let mut gates = Vec::new();
+    for state in 0..=5u8 {
+        for lenient in [false, true] {
+            gates.push(GateCase { state, lenient });
+        }
+    }
+    rep.list("gate-every-key-code", gates, run_gate);
     // every server profile variant x the activation script with noise letters between the steps, twice around
     let mut pv = Vec::new();
     let script = [Letter::DemandActive, Letter::Synchronize, Letter::Cooperate, Letter::Granted, Letter::FontMap, Letter::FpBitmap, Letter::DeactivateAll];
